@@ -1,0 +1,15 @@
+//go:build verif
+
+package scorch
+
+import "sync/atomic"
+
+// VerifHook, when set, is called at the named steps of batch introduction,
+// persisting, merging and purging (verification builds only, tag "verif").
+var VerifHook atomic.Pointer[func(point string)]
+
+func verifPoint(p string) {
+	if f := VerifHook.Load(); f != nil {
+		(*f)(p)
+	}
+}
